@@ -56,7 +56,7 @@ func respell(f func(string) string) func(int, []byte) []byte {
 func keepResult(e *corpusEntry, op int, r string) bool {
 	panicked := len(r) >= 6 && r[:6] == "PANIC:"
 	if e.poison {
-		return panicked && op <= opEncText
+		return panicked && isEncOp(op)
 	}
 	return !panicked
 }
@@ -69,10 +69,22 @@ const (
 	opDecTTLV
 	opDecXML
 	opDecJSON
+	opEncTextHide // the text form with the "hide" option: values under tags registered as secret are starred out
 	nCodecOps
 )
 
-var codecOpNames = []string{"enc-ttlv", "enc-xml", "enc-json", "enc-text", "dec-ttlv", "dec-xml", "dec-json"}
+var codecOpNames = []string{"enc-ttlv", "enc-xml", "enc-json", "enc-text", "dec-ttlv", "dec-xml", "dec-json", "enc-text-hide"}
+
+func isEncOp(op int) bool { return op <= opEncText || op == opEncTextHide }
+
+func init() {
+	// tags the harness declares secret for the text form (the library registers none by itself): a text string and a
+	// byte string that occur all over the corpus, and a structure
+	ttlv.RegisterHideTag(0x420055)
+	ttlv.RegisterHideTag(0x420094)
+	ttlv.RegisterHideTag(0x420043)
+	ttlv.RegisterHideTag(0x420040)
+}
 
 var (
 	corpusOnce sync.Once
@@ -255,6 +267,8 @@ func freshEncoder(op int) ttlv.Encoder {
 		return ttlv.NewJSONEncoder()
 	case opEncText:
 		return ttlv.NewTextEncoder()
+	case opEncTextHide:
+		return ttlv.NewTextEncoder(true)
 	}
 	return ttlv.NewTTLVEncoder()
 }
@@ -268,7 +282,13 @@ func codecOp(e *corpusEntry, op int, enc *ttlv.Encoder) (res string) {
 		}
 	}()
 	switch op {
-	case opEncTTLV, opEncXML, opEncJSON, opEncText:
+	case opEncTTLV, opEncXML, opEncJSON, opEncText, opEncTextHide:
+		if enc == nil && op == opEncTextHide {
+			// (there is no Marshal function for this form: a fresh encoder per call)
+			fe := freshEncoder(op)
+			fe.Any(e.value)
+			return string(bytes.Clone(fe.Bytes()))
+		}
 		if enc != nil {
 			// an encoder whose Clear() itself fails (after an aborted encode) cannot be "a reused, cleared encoder":
 			// it is discarded and replaced, and says nothing either way
@@ -391,7 +411,7 @@ func genC20(g *simrt.Tape, tier string) any {
 	step := func(encOnly bool) CodecStep {
 		n := nCodecOps
 		if encOnly {
-			n = 4
+			n = 5
 		}
 		// bias towards a small working set so that tasks meet on the same types
 		var e int
@@ -401,7 +421,11 @@ func genC20(g *simrt.Tape, tier string) any {
 			base := g.Draw(len(corpus))
 			e = (base/8*8 + g.Draw(8)) % len(corpus)
 		}
-		return CodecStep{Entry: e, Op: g.Draw(n)}
+		op := g.Draw(n)
+		if encOnly && op == 4 {
+			op = opEncTextHide
+		}
+		return CodecStep{Entry: e, Op: op}
 	}
 	for i, n := 0, g.Draw(4); i < n; i++ {
 		sc.Warm = append(sc.Warm, step(false))
@@ -487,9 +511,14 @@ func execC20(x *X, scAny any) {
 	if len(sc.History) > 0 {
 		s.Spawn("reused-encoders", func() {
 			s.WaitUntil("warm-done", func() bool { return started })
-			encs := []ttlv.Encoder{ttlv.NewTTLVEncoder(), ttlv.NewXMLEncoder(), ttlv.NewJSONEncoder(), ttlv.NewTextEncoder()}
+			encs := make([]ttlv.Encoder, nCodecOps)
+			for op := 0; op < nCodecOps; op++ {
+				if isEncOp(op) {
+					encs[op] = freshEncoder(op)
+				}
+			}
 			for _, st := range sc.History {
-				if !valid(st) || st.Op > opEncText {
+				if !valid(st) || !isEncOp(st.Op) {
 					continue
 				}
 				s.Eventf("reused %s #%d", codecOpNames[st.Op], st.Entry)
